@@ -100,6 +100,9 @@ Section EvaluateBounded.
   (* the query *)
   Variable ans : nat -> res A.
   Hypothesis ans_mono : forall n m, n <= m -> res_le (ans n) (ans m).
+  (* the exception that ends the enumeration at depth d when snd (ans d) = Err: RecursionError (ERuntime) for a search
+     that the limit cuts short, or the exception of a registered Python predicate that came up through the generator *)
+  Variable gexc : nat -> exc.
   (* projection function at the k-th answer (k from 0), called when the recursion limit is r:
      a value or an exception, and the recursion limit it leaves behind (a well-behaved projection
      leaves r; one that calls evaluate_bounded itself does so by rlimit_restored) *)
@@ -119,14 +122,14 @@ Section EvaluateBounded.
      l, f: what the generator still has to deliver under the depth available; k: index of the next
      answer; r: recursion limit; acc: result so far.
      Returns (exception leaving the loop, result, recursion limit, generator state). *)
-  Fixpoint loop (l : list A) (f : fin) (k : nat) (r : nat) (acc : list B) : option exc * list B * nat * gstate :=
+  Fixpoint loop (x : exc) (l : list A) (f : fin) (k : nat) (r : nat) (acc : list B) : option exc * list B * nat * gstate :=
     match l with
     | [] => match f with
             | Norm => (None, acc, r, Done)                   (* StopIteration ends the for loop *)
-            | Err => (Some ERuntime, acc, r, Done)           (* RecursionError came up through the generator *)
+            | Err => (Some x, acc, r, Done)                  (* the exception x came up through the generator *)
             end
     | a :: l' => match proj k a r with
-                 | (PVal b, r') => loop l' f (S k) r' (acc ++ [b])
+                 | (PVal b, r') => loop x l' f (S k) r' (acc ++ [b])
                  | (PRaise e, r') => (Some e, acc, r', Susp (S k))    (* generator stays suspended *)
                  end
     end.
@@ -157,7 +160,7 @@ Section EvaluateBounded.
         | Done => finally_ old r1 Done (Return [])         (* a finished generator: StopIteration at once *)
         | Susp k0 =>
             let d := depth_of limit in
-            match loop (skipn k0 (fst (ans d))) (snd (ans d)) k0 r1 [] with
+            match loop (gexc d) (skipn k0 (fst (ans d))) (snd (ans d)) k0 r1 [] with
             | (e, acc, r2, g2) => finally_ old r2 g2 (handle e acc)
             end
         end
@@ -197,7 +200,7 @@ Section EvaluateBounded.
     intros R. unfold evaluate_bounded.
     destruct (setrl limit) as [e|r1]; [rewrite finally_running; auto|].
     destruct (gs st) as [k0|]; [|rewrite finally_running; auto].
-    destruct (loop _ _ _ _ _) as [[[e acc] r2] g2]. rewrite finally_running; auto.
+    destruct (loop _ _ _ _ _ _) as [[[e acc] r2] g2]. rewrite finally_running; auto.
   Qed.
 
   (* the query object is closed on every branch *)
@@ -207,12 +210,12 @@ Section EvaluateBounded.
     intros R C. unfold evaluate_bounded.
     destruct (setrl limit) as [e|r1]; [rewrite finally_running; auto; simpl; rewrite C; reflexivity|].
     destruct (gs st) as [k0|]; [|rewrite finally_running; auto; simpl; destruct has_close; reflexivity].
-    destruct (loop _ _ _ _ _) as [[[e acc] r2] g2]. rewrite finally_running; auto. simpl. rewrite C. reflexivity.
+    destruct (loop _ _ _ _ _ _) as [[[e acc] r2] g2]. rewrite finally_running; auto. simpl. rewrite C. reflexivity.
   Qed.
 
   (* even for an iterable without close(): unless the projection function raised, the generator is
      finished anyway (it ended itself, normally or by the RecursionError that went through it) *)
-  Lemma loop_gen l f : forall k r acc e acc' r' g', loop l f k r acc = (e, acc', r', g') ->
+  Lemma loop_gen x0 l f : forall k r acc e acc' r' g', loop x0 l f k r acc = (e, acc', r', g') ->
     g' = Done \/ (exists j a r0 r1 x, g' = Susp (S j) /\ proj j a r0 = (PRaise x, r1) /\ e = Some x).
   Proof.
     induction l as [|a l IH]; intros k r acc e acc' r' g' H; simpl in H.
@@ -235,8 +238,8 @@ Section EvaluateBounded.
   End Heap.
 
   (* what leaves the loop *)
-  Lemma loop_exc l f : forall k r acc e acc' r' g', loop l f k r acc = (Some e, acc', r', g') ->
-    (e = ERuntime /\ g' = Done) \/ (exists j a r0 r1, proj j a r0 = (PRaise e, r1)).
+  Lemma loop_exc x0 l f : forall k r acc e acc' r' g', loop x0 l f k r acc = (Some e, acc', r', g') ->
+    (e = x0 /\ g' = Done /\ f = Err) \/ (exists j a r0 r1, proj j a r0 = (PRaise e, r1)).
   Proof.
     induction l as [|a l IH]; intros k r acc e acc' r' g' H; simpl in H.
     - destruct f; [discriminate|]. injection H as <- <- <- <-. left; auto.
@@ -246,12 +249,14 @@ Section EvaluateBounded.
   Qed.
 
   (* no recursion-depth error (no RuntimeError at all, no StopIteration) escapes; what does escape is
-     the ValueError of setrecursionlimit for a limit below 1 or an exception of another class raised
-     by the projection function *)
+     the ValueError of setrecursionlimit for a limit below 1, an exception of another class raised
+     by the projection function, or an exception of another class that ended the enumeration itself
+     (raised by a registered Python predicate) *)
   Theorem no_depth_error_escapes st limit e : running st ->
     fst (evaluate_bounded st limit) = Propagate e ->
     caught e = false /\
-    ((limit < 1 /\ e = value_error) \/ (exists k a r0 r1, proj k a r0 = (PRaise e, r1))).
+    ((limit < 1 /\ e = value_error) \/ (exists k a r0 r1, proj k a r0 = (PRaise e, r1)) \/
+     (e = gexc (depth_of limit) /\ snd (ans (depth_of limit)) = Err)).
   Proof.
     intros R. unfold evaluate_bounded.
     destruct (setrl limit) as [x|r1] eqn:S1.
@@ -260,10 +265,10 @@ Section EvaluateBounded.
       + injection S1 as <-. simpl. intros H; injection H as <-. split; auto. left. apply Nat.ltb_lt in E1. auto.
       + destruct (limit <=? cur); [|discriminate]. injection S1 as <-. simpl. discriminate.
     - destruct (gs st) as [k0|]; [|rewrite finally_running; auto; simpl; discriminate].
-      destruct (loop _ _ _ _ _) as [[[x acc] r2] g2] eqn:L. rewrite finally_running; auto. simpl.
+      destruct (loop _ _ _ _ _ _) as [[[x acc] r2] g2] eqn:L. rewrite finally_running; auto. simpl.
       destruct x as [x|]; simpl; [|discriminate].
       destruct (caught x) eqn:Cx; [discriminate|]. intros H; injection H as <-. split; auto.
-      destruct (loop_exc _ _ _ _ _ L) as [[-> _]|Hp]; [discriminate | right; exact Hp].
+      destruct (loop_exc _ _ _ _ _ _ L) as [[-> [_ Hf]]|Hp]; [right; right; split; [reflexivity|exact Hf] | right; left; exact Hp].
   Qed.
 
   (* ---------------------------------------------------------------- the result *)
@@ -282,7 +287,7 @@ Section EvaluateBounded.
     - econstructor; [exact P|]. apply IH. replace (S k + length l) with (k + S (length l)) by lia. exact H2.
   Qed.
 
-  Lemma loop_result l f : forall k r acc e acc' r' g', loop l f k r acc = (e, acc', r', g') ->
+  Lemma loop_result x0 l f : forall k r acc e acc' r' g', loop x0 l f k r acc = (e, acc', r', g') ->
     exists l0 res0, acc' = acc ++ res0 /\ prefix l0 l /\ projected k l0 res0 /\
                     (e = None -> l0 = l /\ f = Norm) /\
                     (g' = Done -> l0 = l).
@@ -313,13 +318,21 @@ Section EvaluateBounded.
     destruct (setrl limit) as [x|r1].
     - rewrite finally_running in H; auto. simpl in H. exists []. split; [apply prefix_nil|].
       destruct (caught x); [injection H as <-; constructor | discriminate].
-    - simpl in H. destruct (loop _ _ _ _ _) as [[[x acc] r2] g2] eqn:L.
+    - simpl in H. destruct (loop _ _ _ _ _ _) as [[[x acc] r2] g2] eqn:L.
       rewrite finally_running in H; auto. simpl in H.
-      destruct (loop_result _ _ _ _ _ L) as [l0 [res0 [E [Pf [Pj _]]]]]. simpl in E. subst acc.
+      destruct (loop_result _ _ _ _ _ _ L) as [l0 [res0 [E [Pf [Pj _]]]]]. simpl in E. subst acc.
       assert (res_ = res0).
       { destruct x as [x|]; simpl in H; [destruct (caught x); [|discriminate]|]; injection H as <-; reflexivity. }
       subst res0. exists l0. split; auto.
       eapply prefix_trans; [exact Pf|]. apply (prefix_mono Lm).
+  Qed.
+
+  Lemma loop_total x0 : (forall k a r, exists b, proj k a r = (PVal b, r)) ->
+    forall l k r acc, exists acc', loop x0 l Norm k r acc = (None, acc', r, Done).
+  Proof.
+    intros T. induction l as [|a l IH]; intros k r acc; simpl.
+    - exists acc. reflexivity.
+    - destruct (T k a r) as [b P]. rewrite P. apply IH.
   Qed.
 
   (* a finite search within the limit, a projection function that returns: the projection of every
@@ -332,14 +345,12 @@ Section EvaluateBounded.
       forall m, depth_of limit <= m -> projected 0 (fst (ans m)) res_ /\ snd (ans m) = Norm.
   Proof.
     intros G R S1 N T. unfold evaluate_bounded. rewrite G, S1. simpl.
-    destruct (loop _ _ _ _ _) as [[[x acc] r2] g2] eqn:L.
+    destruct (loop _ _ _ _ _ _) as [[[x acc] r2] g2] eqn:L.
     rewrite finally_running; auto. simpl.
-    destruct (loop_result _ _ _ _ _ L) as [l0 [res0 [E [Pf [Pj [Hn Hd]]]]]]. simpl in E. subst acc.
+    destruct (loop_result _ _ _ _ _ _ L) as [l0 [res0 [E [Pf [Pj [Hn Hd]]]]]]. simpl in E. subst acc.
     assert (Hx : x = None /\ g2 = Done).
-    { clear -L N T. revert L. generalize 0 at 1. generalize limit at 3. generalize (@nil B).
-      rewrite N. induction (fst (ans (depth_of limit))) as [|a l IH]; intros acc r k L; simpl in L.
-      - injection L as <- _ _ <-. auto.
-      - destruct (T k a r) as [b P]. rewrite P in L. eapply IH; exact L. }
+    { rewrite N in L. destruct (loop_total (gexc (depth_of limit)) T (fst (ans (depth_of limit))) 0 limit []) as [acc' E'].
+      rewrite E' in L. injection L as <- _ _ <-. auto. }
     destruct Hx as [-> ->]. exists res0. split; [reflexivity|].
     intros m Lm. destruct (Hn eq_refl) as [-> _].
     destruct (prefix_mono Lm) as [_ Eq]. rewrite (Eq N). auto.
@@ -350,7 +361,7 @@ Section EvaluateBounded.
   Theorem result_collected_so_far st limit k0 : gs st = Susp k0 ->
     running st -> forall r1, setrl limit = inr r1 ->
     let d := depth_of limit in
-    forall e acc r2 g2, loop (skipn k0 (fst (ans d))) (snd (ans d)) k0 r1 [] = (e, acc, r2, g2) ->
+    forall e acc r2 g2, loop (gexc d) (skipn k0 (fst (ans d))) (snd (ans d)) k0 r1 [] = (e, acc, r2, g2) ->
     fst (evaluate_bounded st limit) = handle e acc.
   Proof.
     intros G R r1 S1 d e acc r2 g2 L. unfold evaluate_bounded. rewrite G, S1. fold d. rewrite L.
@@ -364,7 +375,7 @@ End EvaluateBounded.
 Definition nested_projection {A A' B'} (ans' : A -> nat -> res A') (proj' : nat -> A' -> nat -> pout B' * nat)
   (budget : nat -> nat -> nat) (cur' : nat) (limit' : nat) : nat -> A -> nat -> pout (list B') * nat :=
   fun _ a r =>
-    match evaluate_bounded (ans' a) proj' budget cur' true {| rl := r; gs := Susp 0 |} limit' with
+    match evaluate_bounded (ans' a) (fun _ => ERuntime) proj' budget cur' true {| rl := r; gs := Susp 0 |} limit' with
     | (Return x, st') => (PVal x, rl st')
     | (Propagate e, st') => (PRaise e, rl st')
     end.
@@ -373,6 +384,16 @@ Theorem nested_keeps_rlimit {A A' B'} (ans' : A -> nat -> res A') proj' budget c
   cur' < r -> snd (@nested_projection A A' B' ans' proj' budget cur' limit' k a r) = r.
 Proof.
   intros R. unfold nested_projection.
-  pose proof (@rlimit_restored A' B' (ans' a) proj' budget cur' true {| rl := r; gs := Susp 0 |} limit' R) as H.
+  pose proof (@rlimit_restored A' B' (ans' a) (fun _ => ERuntime) proj' budget cur' true {| rl := r; gs := Susp 0 |} limit' R) as H.
   destruct (evaluate_bounded _ _ _ _ _ _ _) as [[x|e] st']; simpl in *; exact H.
 Qed.
+
+(* the two statements as Properties/C17.v quotes them *)
+Lemma generator_closed_every_generator (A B : Type) (ans : nat -> res A) (gexc : nat -> exc)
+  (proj : nat -> A -> nat -> pout B * nat) budget cur st limit :
+  running cur st -> gs (snd (evaluate_bounded ans gexc proj budget cur true st limit)) = Done.
+Proof. intros R. apply generator_closed_on_every_branch; auto. Qed.
+
+Lemma nested_keeps_rlimit_all : forall (A A' B' : Type) (ans' : A -> nat -> res A') proj' budget cur' limit' k a r,
+  cur' < r -> snd (@nested_projection A A' B' ans' proj' budget cur' limit' k a r) = r.
+Proof. intros A A' B'. exact (@nested_keeps_rlimit A A' B'). Qed.
